@@ -3,7 +3,8 @@
 Generator: (1) the full table of single clauses: six operators x optional `not` x state value
 in {int, float, negative, zero, string, bool} x goal direct or taken from another share x
 tolerance {none, 0, 0.5, -0.5} x goal on / just below / just above the state; the same on the
-framer clocks `elapsed` / `recurred`; bare `if state` truthiness. (2) Hypothesis conjunctions
+framer clocks `elapsed` / `recurred` (bare spelling and `elapsed re`, `elapsed re me`, `elapsed re <own framer>`,
+goal direct or from a share, with and without tolerance); bare `if state` truthiness. (2) Hypothesis conjunctions
 of 1-3 clauses joined with `and`. Ordering operators are only generated between mutually
 orderable values (number-number, string-string).
 Each clause becomes `go b if <clause>` in its own framer (many framers per script to amortise
@@ -40,10 +41,10 @@ def truth(clause, vals):
             state = vals[clause["state"]]
             goal = clause["goal"]
             goal = vals[goal["path"]] if isinstance(goal, dict) else goal
-        elif k == "elapsed":
-            state, goal = 0.125, clause["goal"]
         else:
-            state, goal = 1, clause["goal"]
+            state = 0.125 if k == "elapsed" else 1
+            goal = clause["goal"]
+            goal = vals[goal["path"]] if isinstance(goal, dict) else goal
         op = clause["op"]
         tol = clause.get("tol")
         num = lambda x: isinstance(x, (int, float)) and not isinstance(x, bool)
@@ -99,12 +100,21 @@ def single_clauses():
     for v in (0, 1, -1, 0.0, 0.5, "", "a", True, False, None):
         for neg in (False, True):
             out.append(({"kind": "bool", "state": ".q.s", "neg": neg}, {".q.s": v, ".q.g": 0}))
+    # framer clocks: bare spelling and the explicit `state re [me|<own framer name>]` spelling, goal direct or
+    # from a share, with and without tolerance
     for op in OPS:
         for neg in (False, True):
-            for g in (0.0, 0.0625, 0.125, 0.1875, 0.25):
-                out.append(({"kind": "elapsed", "op": op, "goal": g, "neg": neg}, {".q.s": 0, ".q.g": 0}))
-            for g in (0, 1, 2):
-                out.append(({"kind": "recurred", "op": op, "goal": g, "neg": neg}, {".q.s": 0, ".q.g": 0}))
+            for kind, goals, tol1 in (("elapsed", (0.0, 0.0625, 0.125, 0.1875, 0.25), 0.0625), ("recurred", (0, 1, 2), 1)):
+                for g in goals:
+                    for re in (None, "", "me", "SELF"):
+                        for indirect in (False, True):
+                            for tol in ((None, tol1, -tol1) if op in ("==", "!=") else (None,)):
+                                c = {"kind": kind, "op": op, "goal": {"path": ".q.g"} if indirect else g, "neg": neg}
+                                if re is not None:
+                                    c["re"] = re
+                                if tol is not None:
+                                    c["tol"] = tol
+                                out.append((c, {".q.s": 0, ".q.g": g}))
     return out
 
 
@@ -125,6 +135,8 @@ def build_program(items):
                 n["state"] = ren[n["state"]]
             if isinstance(n.get("goal"), dict):
                 n["goal"] = {"path": ren[n["goal"]["path"]]}
+            if n.get("re") == "SELF":
+                n["re"] = "m%d" % i
             ns.append(n)
         framers.append({"name": "m%d" % i, "sched": "active", "order": None, "period": None, "first": None,
                         "frames": [{"name": "a", "over": None, "acts": [{"kind": "go", "far": "b", "needs": ns}]},
@@ -224,6 +236,8 @@ def work(shard, seed, tier):
                 if isinstance(c.get("goal"), dict):
                     c["goal"] = {"path": ".q.g%d" % j}
                     vals[".q.g%d" % j] = v[".q.g"]
+                elif "state" not in c:
+                    vals.setdefault(".q.g%d" % j, 0)
                 needs.append(c)
             items.append([needs, vals])
         return items
@@ -243,7 +257,7 @@ def replay(case):
 
 
 RULE = ("full table of single clauses (6 operators x not x int/float/negative/zero/string/bool states x goal on/below/above the state x direct/indirect goal x "
-        "tolerance none/0/0.5/-0.5; elapsed/recurred clocks; bare truthiness) + Hypothesis conjunctions of 1-3 clauses; each clause is a `go b if ..` whose "
+        "tolerance none/0/0.5/-0.5; elapsed/recurred clocks in the bare and the `re [me|framer]` spelling with direct/indirect goal and tolerance; bare truthiness) + Hypothesis conjunctions of 1-3 clauses; each clause is a `go b if ..` whose "
         "outcome at its first evaluation is compared with direct evaluation of the written comparison. non-trivial = negated, conjunction, clock, or goal "
         "within 0.5 of the state (boundary); distinct = distinct (condition text, share values)")
 ASSUMPTIONS = ["ordering operators are only generated between number-number and string-string operands",
